@@ -65,7 +65,10 @@ pub fn plan(id: &str) -> Option<Plan> {
             rule: "same scenarios as C01 followed by a quiescence point and a probe burst of N+1 gated callers; non-trivial iff the history contained a panic, cancellation or wait-timeout and the probe ran; distinct = distinct (poll trace, outcome instants) signature",
             assumptions: BASE_ASSUMPTIONS.to_vec(),
             floor: 50,
-            engines: vec![Engine { name: "sim", salt: 1, quick: 3000, thorough: 1_000_000, serial: false, run: Box::new(|s, t| c01::scenario("C07", s, t)) }],
+            engines: vec![
+                Engine { name: "sim", salt: 1, quick: 3000, thorough: 1_000_000, serial: false, run: Box::new(|s, t| c01::scenario("C07", s, t)) },
+                Engine { name: "stress-threads", salt: 3, quick: 2, thorough: 12, serial: true, run: Box::new(|s, t| c01::stress_threads_for("C07", s, t.pick(1500, 10_000))) },
+            ],
             extra: None,
         },
         "C02" => Plan {
